@@ -3727,3 +3727,66 @@ def env9(ctx):
         r.report("ENV-9|siblings", fn_loc(ctx.fn(lib, "asca::subrule::SubRule::get_contexts")), "asca::subrule::SubRule::get_contexts",
                  "get_contexts builds its list with %s, get_exceptions with %s: a context set and an exception set written the same way are read differently" % ("/".join(chains["get_contexts"]), "/".join(chains["get_exceptions"])))
     return r
+
+
+# ---------------------------------------------------------------- VAR-5: the direction-adjusted copy is the one compared
+
+def var5(ctx):
+    """Before-contexts are matched on the mirrored word, so a matcher that compares captured material with the word first
+    makes a direction-adjusted copy: `let segs = if forwards { x.segments.clone() } else { reversed clone }`. Having made
+    it, every comparison in that function uses the copy; comparing the raw `x.segments` again is right only when matching
+    forwards (a contradiction in the function's own beliefs)."""
+    r = RuleResult("VAR-5", "a matcher that builds a direction-adjusted copy (`if forwards { x.clone() } else { reversed }`) compares that copy, never the raw value again", floor=1)
+    lib = ctx.lib
+    n = 0
+
+    def canon(e):
+        e = hirq.strip(e)
+        while isinstance(e, dict) and (e.get("e") == "mcall" and e["name"] in ("clone", "to_owned", "iter", "as_ref") and not e["args"] or e.get("e") == "unary" and e.get("op") == "Deref"):
+            e = hirq.strip(e["recv"] if e.get("e") == "mcall" else e["a"])
+        if not isinstance(e, dict):
+            return None
+        if e.get("e") == "path" and "local" in e:
+            return e["local"]
+        if e.get("e") == "field":
+            c = canon(e["a"])
+            return None if c is None else c + "." + e["name"]
+        return None
+
+    for b in lib.bodies:
+        if b.in_test_mod() or not b.hir or b.kind == "closure" or not b.path.startswith("asca::subrule::SubRule::") or "forwards" not in (b.param_names or []):
+            continue
+        root = b.hir["body"]
+        for x in hirq.walk(root):
+            if x["e"] != "let" or x.get("init") is None or x["pat"].get("p") != "bind":
+                continue
+            init = hirq.strip(x["init"])
+            if init.get("e") != "if" or init.get("else") is None:
+                continue
+            if not any(y["e"] == "path" and y.get("local") == "forwards" for y in hirq.walk(init["cond"])):
+                continue
+            # one branch is the plain value, the other one reverses it
+            def plain(br):
+                br = hirq.strip(br)
+                if br.get("e") == "block" and br.get("stmts"):
+                    return None
+                return canon(br)
+            raws = {plain(init["then"]), plain(init["else"])} - {None}
+            rev = any(y["e"] == "mcall" and y["name"] in ("reverse", "rev") for y in hirq.walk(init))
+            if len(raws) != 1 or not rev:
+                continue
+            raw = raws.pop()
+            copy = x["pat"]["name"]
+            n += 1
+            bad = []
+            for y in hirq.walk(root):
+                if y["e"] == "binary" and y["op"] in ("Eq", "Ne") and raw in (canon(y["a"]), canon(y["b"])):
+                    bad.append(y)
+            short = b.path.rsplit("::", 1)[-1]
+            r.inst("%s: `%s` is the direction-adjusted copy of `%s`; comparisons use the copy" % (short, copy, raw), fn_loc(b, x.get("ln")), "ok" if not bad else "report")
+            for k, y in enumerate(bad):
+                r.report("VAR-5|%s|%s#%d" % (short, raw, k), fn_loc(b, y.get("ln")), b.path,
+                         "`%s` is compared directly although the function made the direction-adjusted copy `%s` of it: in a before-context (matched on the mirrored word) the raw value only equals a palindrome -- `%%=1 > * / 1:[-stress] _` never fires on `ka.ka.ta`" % (raw, copy))
+    if n < 1:
+        raise AnchorMissing("VAR-5: no direction-adjusted copy (`if forwards { .. } else { reversed }`) found in SubRule")
+    return r
